@@ -40,8 +40,18 @@ let string_of_n (v : n) : string =
 
 let byte_tbl = Array.init 256 n_of_int
 
+let read_file_bytes (path : string) : n list =
+  let ic = open_in_bin path in
+  let len = in_channel_length ic in
+  let b = really_input_string ic len in
+  close_in ic;
+  let rec go i acc = if i < 0 then acc else go (i - 1) (byte_tbl.(Char.code b.[i]) :: acc) in
+  go (len - 1) []
+
 let bytes_of_hex (s : string) : n list =
-  if s = "-" then [] else begin
+  if s = "-" then []
+  else if String.length s > 0 && s.[0] = '@' then read_file_bytes (String.sub s 1 (String.length s - 1))
+  else begin
     let len = String.length s in
     if len mod 2 <> 0 then failwith "odd hex";
     let hv c = match c with '0'..'9' -> Char.code c - 48 | 'a'..'f' -> Char.code c - 87 | 'A'..'F' -> Char.code c - 55 | _ -> failwith "bad hex" in
@@ -64,6 +74,16 @@ let sfield_of = function
   | "type" -> SType | "flags" -> SFlags | "info" -> SInfo | "link" -> SLink
   | "addralign" -> SAddralign | "entsize" -> SEntsize | "addr" -> SAddr | "size" -> SSize
   | "nameoff" -> SNameOff | s -> failwith ("bad section field " ^ s)
+
+let gfield_of = function
+  | "type" -> GType | "flags" -> GFlags | "align" -> GAlign | "vaddr" -> GVaddr | "paddr" -> GPaddr
+  | "filesz" -> GFilesz | "memsz" -> GMemsz | "offset" -> GOffset
+  | s -> failwith ("bad segment field " ^ s)
+
+let rec triples = function
+  | a :: b :: c :: rest -> ((n_of_string a, n_of_string b), n_of_string c) :: triples rest
+  | [] -> []
+  | _ -> failwith "xlat needs triples"
 
 let hfield_of = function
   | "type" -> HType | "machine" -> HMachine | "version" -> HVersion | "entry" -> HEntry
@@ -130,6 +150,23 @@ let parse_op (toks : string list) : op =
   | ["vdnew"; k; sec] -> OpVdNew (n k, n sec)
   | ["vdnum"; k] -> OpVdNum (n k)
   | ["vdget"; k; i] -> OpVdGet (n k, n i)
+  | ["addseg"] -> OpAddSeg
+  | ["segset"; j; f; v] -> OpSegSet (n j, gfield_of f, n v)
+  | ["segadd"; j; i; a] -> OpSegAdd (n j, n i, n a)
+  | ["segaddsec"; j; i] -> OpSegAddSec (n j, n i)
+  | "xlat" :: rest -> OpXlat (triples rest)
+  | ["load"; k; lz; d] -> OpLoad ((k = "file"), bool_of lz, h d)
+  | ["save"] -> OpSave None
+  | ["savecap"; k] -> OpSave (Some (n k))
+  | ["validate"] -> OpValidate
+  | ["obshdr"] -> OpObsHdr
+  | ["obssec"; i] -> OpObsSec (n i)
+  | ["obsseg"; j] -> OpObsSeg (n j)
+  | ["segdata"; j] -> OpSegData (n j)
+  | ["segfree"; j] -> OpSegFree (n j)
+  | ["obsall"] -> OpObsAll
+  | ["allocmax"] -> OpAllocMax
+  | ["dump"] -> OpDump
   | ["hashelf"; nm] -> OpHashElf (h nm)
   | ["hashgnu"; nm] -> OpHashGnu (h nm)
   | _ -> failwith ("bad op: " ^ String.concat " " toks)
